@@ -24,7 +24,7 @@ MANIFEST = {
     "technique": "bounded-exhaustive metamorphic enumeration: every input executed before and after each transformation",
 }
 MANIFEST["text"] += " " + (
-    'Added after the seeding waves: integer labels rotated so that the falsy label 0 lands on interior nodes, a string relabelling that uses the empty string for one node.')
+    'Added after the seeding waves: integer labels rotated so that the falsy label 0 lands on interior nodes, a string relabelling that uses the empty string for one node; configurations whose initial radius is attained exactly along one axis by GRID nodes (a start node on a side of the search box).')
 BUDGET = {"quick": 420, "thorough": 3000}
 RULE = ("states = (input, configuration, transformation) executions, transitions = matcher runs, traces validated = transformed "
         "results compared with the base result; non-trivial = the base match is non-empty; outcomes = base canonical results.")
@@ -33,7 +33,10 @@ ASSUMPTIONS = ["a translation by offset o is compared at relative tolerance 1e-9
 
 SCALED = ("obs_noise", "obs_noise_ne", "dist_noise", "dist_noise_ne", "max_dist", "max_dist_init")
 CFGS = [dict(fam=f, ne=ne, avoid=True, width=None, obs_noise=1.0) for f in ms.FAMS for ne in (False, True)] + \
-       [dict(fam=f, ne=ne, avoid=True, width=2, obs_noise=1.0, max_dist=1.5, min_prob_norm=0.3) for f in ms.FAMS for ne in (False, True)]
+       [dict(fam=f, ne=ne, avoid=True, width=2, obs_noise=1.0, max_dist=1.5, min_prob_norm=0.3) for f in ms.FAMS for ne in (False, True)] + \
+       [dict(fam=f, ne=ne, avoid=True, width=None, obs_noise=1.0, max_dist=3.0, max_dist_init=2.0) for f, ne in (("S", False), ("D", True), ("SN", True))]
+# (the last group: an initial radius that GRID nodes attain EXACTLY along one axis - a start node on a side of the search box -
+#  so that an asymmetric treatment of the four sides shows under the axis swap)
 
 
 def transforms(pos, width, extreme):
